@@ -24,6 +24,20 @@ def crc16(data):
     return crc
 
 
+_TAB = []
+
+
+def _crc_table():
+    """byte-wise table derived from the bit-by-bit definition above (only used to scan long streams)"""
+    if not _TAB:
+        for b in range(256):
+            c = b
+            for _ in range(8):
+                c = (c >> 1) ^ 0xA001 if c & 1 else c >> 1
+            _TAB.append(c)
+    return _TAB
+
+
 def crc_bytes(data):
     c = crc16(data)
     return bytes([c & 0xFF, c >> 8])        # low byte first on the wire
@@ -65,7 +79,7 @@ def build(framing, unit, pdu, tid=0, pid=0):
     if framing == 'tls':
         return pdu
     if framing == 'binary':
-        body = bytes([unit, pdu[0]]) + escape_binary(pdu[1:])
+        body = bytes([unit]) + pdu[:1] + escape_binary(pdu[1:])
         return b'{' + body + crc_bytes(body) + b'}'
     raise ValueError(framing)
 
@@ -274,12 +288,11 @@ def _candidates(framing, d, data):
     out = []
     n = len(data)
     if framing == 'rtu':
+        tab = _crc_table()
         for i in range(n - 3):
             crc = 0xFFFF
-            for j in range(i, n - 2):
-                crc ^= data[j]
-                for _ in range(8):
-                    crc = (crc >> 1) ^ 0xA001 if crc & 1 else crc >> 1
+            for j in range(i, min(n - 2, i + 257)):          # an RTU frame is at most 256 bytes
+                crc = (crc >> 8) ^ tab[(crc ^ data[j]) & 0xFF]
                 if j - i >= 1 and data[j + 1] == (crc & 0xFF) and data[j + 2] == (crc >> 8):
                     m = _try_illegal(d, data[i + 1:j + 1])
                     if m is not None:
@@ -289,7 +302,7 @@ def _candidates(framing, d, data):
         ends = [i for i in range(n - 1) if data[i:i + 2] == b'\r\n']
         for s in starts:
             for e in ends:
-                if e > s:
+                if s < e <= s + 520:
                     f = _ascii_frame(d, data, s, e + 2)
                     if f is not None:
                         out.append(f)
@@ -298,7 +311,7 @@ def _candidates(framing, d, data):
         ends = [i for i in range(n) if data[i] == 0x7D]
         for s in starts:
             for e in ends:
-                if e > s:
+                if s < e <= s + 520:
                     out += _binary_frames(d, data, s, e + 1)
     elif framing == 'tcp':
         for i in range(n - 7):
